@@ -31,13 +31,16 @@ Fixpoint eqb_lnat (a b : list nat) : bool :=
   end.
 Definition pat_t : Type := list N * (nat * nat) * (nat * nat).
 (* (algorithm, adaptive_threshold, resolved algorithm), text, returned array, oracle verdict on the array,
-   LCP array, BWT, patterns with (search_range, search) results *)
+   full?, LCP array, BWT, patterns with (search_range, search) results.
+   full = false: a text too long for the quadratic list models; only the certificate check_sa is run. *)
 Definition case_t : Type :=
-  (N * N * N) * list N * list nat * bool * option (list nat) * option (list N) * list pat_t.
+  (N * N * N) * list N * list N * bool * bool * option (list nat) * option (list N) * list pat_t.
 Definition ok (c : case_t) : bool :=
-  let '(a, thr, res, t, sa, sa_ok, lcp, bw, pats) := c in
+  let '(a, thr, res, t, sa_n, sa_ok, full, lcp, bw, pats) := c in
+  let sa := map N.to_nat sa_n in
   Bool.eqb (check_sa t sa) sa_ok
-  && eqb_lnat (build (fun _ => sa) (fun _ => alg_of res)
+  && (negb full ||
+  eqb_lnat (build (fun _ => sa) (fun _ => alg_of res)
                      {| algorithm := alg_of a; adaptive_threshold := thr |} t) sa
   && match lcp with
      | None => true
@@ -51,7 +54,7 @@ Definition ok (c : case_t) : bool :=
        else
        let '(ml, mr) := search_range t sa p in
        let '(ml2, mc2) := search t sa p in
-       Nat.eqb ml l && Nat.eqb mr r && Nat.eqb ml2 l2 && Nat.eqb mc2 c2) pats.
+       Nat.eqb ml l && Nat.eqb mr r && Nat.eqb ml2 l2 && Nat.eqb mc2 c2) pats).
 "#;
 
 const ALGS: [(Alg, &str); 5] = [
@@ -67,6 +70,8 @@ struct Ctx {
     sum: Summary,
     shards: CoqShards,
     coq_budget: usize,
+    big_certs: usize,
+    big_cert_budget: usize,
     comps: Vec<(SuffixArrayCompressor, &'static str, bool)>,
 }
 
@@ -140,16 +145,24 @@ struct Obs {
 }
 
 fn push_coq(cx: &mut Ctx, alg: usize, thr: usize, resolved: usize, t: &[u8], o: &Obs, cj: &Value, force: bool) {
-    if t.len() > 300 { return; }
-    if !force && cx.shards.len() >= cx.coq_budget { return; }
-    let pats: Vec<String> = o.pats.iter().map(|(p, (l, r), (l2, c))|
-        format!("({}, ({}, {}), ({}, {}))", coq_bytes(p), l, r, l2, c)).collect();
-    let term = format!("(({}%N, {}%N, {}%N), {}, {}, {}, {}, {}, [{}])",
-        alg, thr, resolved, coq_bytes(t), coq_nat_list(&o.sa), coq_bool(o.sa_ok),
-        coq_opt(o.lcp.as_ref().map(|l| coq_nat_list(l))),
-        coq_opt(o.bwt.as_ref().map(|b| coq_bytes(b))),
+    // texts up to 300 bytes: everything is recomputed by the model; SA-IS outputs on texts up to 2600 bytes:
+    // certificate only (check_sa), a bounded number per run
+    let full = t.len() <= 300;
+    if !full {
+        let sais = resolved == 0 && (alg == 0 || alg == 4 || alg == 5);
+        if !sais || t.len() > 2600 || cx.big_certs >= cx.big_cert_budget { return; }
+        cx.big_certs += 1;
+    } else if !force && cx.shards.len() >= cx.coq_budget + cx.big_certs { return; }
+    let pats: Vec<String> = if full { o.pats.iter().map(|(p, (l, r), (l2, c))|
+        format!("({}, ({}, {}), ({}, {}))", coq_bytes(p), l, r, l2, c)).collect() } else { vec![] };
+    let term = format!("(({}%N, {}%N, {}%N), {}, {}, {}, {}, {}, {}, [{}])",
+        alg, thr, resolved, coq_bytes(t), coq_n_list(o.sa.iter().map(|&x| x as u128)), coq_bool(o.sa_ok), coq_bool(full),
+        coq_opt(if full { o.lcp.as_ref().map(|l| coq_nat_list(l)) } else { None }),
+        coq_opt(if full { o.bwt.as_ref().map(|b| coq_bytes(b)) } else { None }),
         pats.join("; "));
-    cx.shards.push(term, cj.clone());
+    let mut cj = cj.clone();
+    if !full { cj["text"] = json!(format!("<{} bytes, certificate-only case>", t.len())); cj["patterns"] = json!([]); }
+    cx.shards.push(term, cj);
 }
 
 /// Known-finding class of a wrong array, if any.  Both classes of the pinned tree (SA-IS order,
@@ -502,6 +515,8 @@ pub fn run(args: &Args) {
         sum: Summary::new("C12", "enumerated: every string of length <= 9 over 2 letters, <= 7 over 3, <= 5 over 4 (<= 12/8/6 thorough) x the five algorithms x every pattern of length <= 3 over the alphabet plus one absent letter; generated: single symbol, long runs, periodic (periods 1-7, optional defect), Fibonacci / Thue-Morse words, random over alphabets of size 1..256, monotone ramps, byte extremes 0/255, squares, lengths 0-3 and up to 2000 (> 256 LMS suffixes), x algorithms x configuration variants (parallel path, optimize_small_alphabet off, adaptive_threshold 0 / n / n+1) x patterns (present substrings, mutated, extended, whole text, longer than text, empty, full suffix); each array is checked to be a permutation in strictly increasing suffix order, LCP/BWT/search against naive recomputation; non-trivial = text of >= 2 bytes / non-empty pattern"),
         shards: CoqShards::new(HEADER, 250),
         coq_budget: if args.thorough { 6000 } else { 1250 },
+        big_certs: 0,
+        big_cert_budget: if args.thorough { 200 } else { 40 },
         comps,
     };
     for (cell, st) in [("build/SAIS", "S-only"), ("EnhancedSuffixArray", "M+S"), ("lcp", "M+S"), ("search", "M+S")] { cx.sum.cell_status(cell, st); }
